@@ -117,6 +117,18 @@ class ImplicitFuncComp(ImplicitComponent):
                 raise RuntimeError(f"{self.msginfo}: failed jit compile of solve_nonlinear "
                                    f"function: {err}")
 
+    @property
+    def _mode(self):
+        """
+        Return the direction used for jax derivatives and for the coloring of this component.
+
+        Returns
+        -------
+        str
+            'fwd' or 'rev'.
+        """
+        return self.best_partial_deriv_direction()
+
     def setup(self):
         """
         Define our inputs and outputs.
